@@ -215,7 +215,7 @@ def worker_main(path):
     for nm, plist in (("zbl", [[1.0, 1.0], [92.0, 8.0], [8.0, 92.0], [14.0, 6.0]]), ("tang_toennies", [[41.0, 1.23, 1.5, 14.1, 183.5], [0.5, 2.0, 3.0, 4.0, 5.0]]),
                       ("bornmayer", [[1000.0, 0.3], [0.3, 1000.0]]), ("morse", [[1.5, 2.0, 0.5], [2.0, 1.5, 0.5], [0.5, 2.0, 1.5]])):
         for p in plist:
-            for r in (0.5, 1.0, 2.5):
+            for r in (0.5, 1.0, 2.5) + ((8.0, 15.0, 30.0) if nm == "zbl" else ()):      # the statement: out to 30 Angstrom
                 items.append((nm, p, r, rt.add(nm, [repr(x) for x in p], r)))
     rt.build()
     for nm, p, r, i in items:
@@ -236,8 +236,16 @@ def worker_main(path):
             fail("routes-disagree", "as.%s %s at r=%s: %s" % (nm, p, r, vals), None)
         fn = getattr(PFn, nm)
         h = 1e-5
-        num1 = (fn(r + h, *p) - fn(r - h, *p)) / (2 * h)
-        num2 = (fn.deriv(r + h, *p) - fn.deriv(r - h, *p)) / (2 * h)
+        try:
+            num1 = (fn(r + h, *p) - fn(r - h, *p)) / (2 * h)
+            num2 = (fn.deriv(r + h, *p) - fn.deriv(r - h, *p)) / (2 * h)
+            d1v, d2v = fn.deriv(r, *p), fn.deriv2(r, *p)
+        except Exception as e:
+            fail("derivative-raises", "as.%s %s at r=%s: %s: %s" % (nm, p, r, type(e).__name__, e), None)
+            continue
+        if not (math.isfinite(d1v) and math.isfinite(d2v)):
+            fail("deriv", "as.%s %s at r=%s: .deriv = %r, .deriv2 = %r (the energy is %r)" % (nm, p, r, d1v, d2v, fn(r, *p)), None)
+            continue
         if not close(fn.deriv(r, *p), num1, scale=abs(fn(r, *p)) / r, tol=1e-6) or not close(fn.deriv2(r, *p), num2, scale=abs(fn.deriv(r, *p)) / r, tol=1e-6):
             fail("deriv", "as.%s %s at r=%s: .deriv = %r (slope of the energy %r), .deriv2 = %r (slope of .deriv %r)" % (nm, p, r, fn.deriv(r, *p), num1, fn.deriv2(r, *p), num2), None)
     n += buck4_cases(data.get("buck4", []), fail)
